@@ -287,6 +287,30 @@ Proof.
 Qed.
 
 (** ** Resuming waiting frames and unwinding *)
+Lemma rcu_attempt_tl cf l c m p d l' nx rest :
+  all_waiting rest -> tl_depth l = depth_of rest -> (depth_of rest <> 0 -> tl_node l <> None) -> gen_ok l ->
+  rcu_attempt cf l c m p d = (l', nx) ->
+  next_tl_ok l' rest nx.
+Proof.
+  intros Hrest Hd Hn Hg He. unfold rcu_attempt in He. destr_in He; try discriminate; injection He as <- <-.
+  all: unfold next_tl_ok.
+  all: try exact I.
+  all: try (match goal with
+            | H : enter_load _ _ _ = inl (?t, ?fs) |- tl_ok ?t ((?fs ++ ?ws) ++ ?w :: _) =>
+                rewrite <- app_assoc; apply call_frames_tl_ok2;
+                [eapply enter_load_tl; [exact H| cbn; lia | cbn; intros; apply Hn; lia | exact Hg]
+                |cbn; repeat constructor; auto]
+            | H : guard_drop_frames _ _ = ?f :: ?fs |- _ =>
+                apply guard_drop_frames_shape in H; destruct H as (-> & Hgw & Hgi & Hgg);
+                unfold tl_ok; cbn [app depth_of]; rewrite Hgw, Hgi, (not_waiting_not_bottom _ Hgw); cbn [is_bottom_frame in_with];
+                repeat split; auto; try apply Hg; try (repeat constructor; auto; fail); try lia;
+                try congruence; try (intros; apply Hn; lia)
+            end).
+  all: try (unfold tl_ok, tl_popped, ret_node_ok; cbn; repeat split; auto; try apply Hg;
+            try (repeat constructor; auto; fail); try lia; try congruence;
+            try (intros; apply Hn; lia); try (intros; congruence); fail).
+Qed.
+
 Definition setgen_ok (p : pc) : Prop :=
   match p with WGetSetGen g => N.land g TAG_MASK = 0 /\ g < WORD | _ => True end.
 
@@ -300,6 +324,8 @@ Proof.
   intros (Hall & Hd & Hn & Hg) Hsg Hwe Hrv He. inversion Hall as [|? ? Hww Hrest]; subst.
   destruct w; cbn in Hww; try discriminate; unfold resume in He; cbn in Hd, Hn, Hsg, Hwe.
   all: destr_in He; try discriminate.
+  all: try (match type of He with rcu_attempt _ _ _ _ _ _ = _ =>
+              eapply rcu_attempt_tl; [exact Hrest| | |exact Hg|exact He]; [cbn in Hd; lia|intros; apply Hn; lia] end).
   all: try (injection He as <- <-).
   all: unfold next_tl_ok.
   all: try (match goal with |- True => exact I end).
@@ -538,6 +564,18 @@ Proof.
   unfold load_body. destruct (cf_use_fast cf); [intros [= <- <-]; exact I|apply fallback_entry_next_nodes].
 Qed.
 
+Lemma rcu_attempt_nodes cf l c m p d l' nx bound :
+  rcu_attempt cf l c m p d = (l', nx) -> next_nodes_ok bound nx.
+Proof.
+  intros He. unfold rcu_attempt in He. destr_in He; try discriminate; injection He as <- <-; unfold next_nodes_ok; try exact I.
+  all: try (split; [|exact I]).
+  all: try (match goal with
+            | H : enter_load _ _ _ = inl (_, ?fs) |- Forall _ (?fs ++ _) =>
+                apply Forall_nodes_app; [eapply enter_load_nodes; exact H|repeat constructor]
+            | H : guard_drop_frames ?p ?d = ?fs |- Forall _ ?fs => rewrite <- H; apply guard_frames_nodes
+            end).
+Qed.
+
 Lemma resume_nodes cf l w v l' nx bound :
   pc_nodes_ok bound w ->
   match v with RNode n => n < bound | _ => True end ->
@@ -546,6 +584,7 @@ Lemma resume_nodes cf l w v l' nx bound :
 Proof.
   intros Hp Hv He. destruct w; unfold resume in He; cbn in Hp.
   all: destr_in He; try discriminate.
+  all: try (match type of He with rcu_attempt _ _ _ _ _ _ = _ => eapply rcu_attempt_nodes; exact He end).
   all: try (injection He as <- <-).
   all: unfold next_nodes_ok.
   all: try (match goal with |- True => exact I end).
